@@ -10,6 +10,7 @@ import (
 	"math/big"
 	"net"
 	"net/http/httptest"
+	"sort"
 	"strconv"
 	"strings"
 	"sync"
@@ -30,6 +31,11 @@ var (
 	coreContract   = common.HexToAddress("0xc662c410C0ECf747543f5bA90660f6ABeBD9C8c4")
 	logStateUpdate = common.HexToHash("0xd342ddf7a308dec111745b00315c14b7efb2bdae570a6856e088ed0c65a3576c")
 	feltP, _       = new(big.Int).SetString("800000000000011000000000000000000000000000000000000000000000001", 16)
+)
+
+var (
+	otherContract = common.HexToAddress("0x00000000000000000000000000000000DeaDBeef")
+	otherTopic    = common.HexToHash("0x9592d37825c744e33fa80c469683bbd04d336241bb600b574758efd182abe26a") // LogMessageToL1-like
 )
 
 const sentinelBase = uint64(1) << 62
@@ -61,27 +67,32 @@ func (l *trackListener) killAll() {
 }
 
 type nodeSub struct {
+	crit logCriteria
 	ch   chan *types.Log
 	done chan struct{}
 }
 
 type fakeNode struct {
-	mu            sync.Mutex
-	hist          []Log
-	latest        uint64
-	fin1          uint64
-	cur           uint64
-	finCalls      int
-	finFails      int
-	lastFinAnswer uint64
-	subs          []*nodeSub
-	subCount      int
-	emitted       []Log // every non-sentinel log pushed on a live subscription, in order
-	filterQ       [][2]uint64
-	srv           *rpc.Server
-	hs            *httptest.Server
-	ln            *trackListener
-	url           string
+	mu              sync.Mutex
+	hist            []Log
+	latest          uint64
+	fin1            uint64
+	cur             uint64
+	finCalls        int
+	finFails        int
+	finNotFound     int
+	chainIDFails    int
+	chainIDMismatch bool
+	decoys          []Log
+	lastFinAnswer   uint64
+	subs            []*nodeSub
+	subCount        int
+	emitted         []Log // every non-sentinel log pushed on a live subscription, in order
+	filterQ         [][2]uint64
+	srv             *rpc.Server
+	hs              *httptest.Server
+	ln              *trackListener
+	url             string
 }
 
 // rawValues gives the uint256 words the core contract would have emitted for l.
@@ -101,9 +112,16 @@ func toGethLog(l Log, idx uint) *types.Log {
 	root.FillBytes(data[0:32])
 	number.FillBytes(data[32:64])
 	hash.FillBytes(data[64:96])
+	addr, topic := coreContract, logStateUpdate
+	switch l.Decoy {
+	case 1:
+		addr = otherContract
+	case 2:
+		topic = otherTopic
+	}
 	return &types.Log{
-		Address:     coreContract,
-		Topics:      []common.Hash{logStateUpdate},
+		Address:     addr,
+		Topics:      []common.Hash{topic},
 		Data:        data,
 		BlockNumber: l.L1,
 		TxHash:      common.BigToHash(new(big.Int).SetUint64(l.L1*1000 + l.L2%1000 + 1)),
@@ -116,7 +134,18 @@ func toGethLog(l Log, idx uint) *types.Log {
 
 type ethAPI struct{ n *fakeNode }
 
-func (a *ethAPI) ChainId() *hexutil.Big { return (*hexutil.Big)(big.NewInt(1)) }
+func (a *ethAPI) ChainId() (*hexutil.Big, error) {
+	a.n.mu.Lock()
+	defer a.n.mu.Unlock()
+	if a.n.chainIDFails > 0 {
+		a.n.chainIDFails--
+		return nil, errors.New("scripted failure")
+	}
+	if a.n.chainIDMismatch {
+		return (*hexutil.Big)(big.NewInt(5)), nil
+	}
+	return (*hexutil.Big)(big.NewInt(1)), nil
+}
 
 func (a *ethAPI) BlockNumber() hexutil.Uint64 {
 	a.n.mu.Lock()
@@ -124,23 +153,43 @@ func (a *ethAPI) BlockNumber() hexutil.Uint64 {
 	return hexutil.Uint64(a.n.latest)
 }
 
-func (a *ethAPI) GetBlockByNumber(ctx context.Context, number string, full bool) (*types.Header, error) {
+func (a *ethAPI) GetBlockByNumber(ctx context.Context, number string, full bool) (any, error) {
 	a.n.mu.Lock()
 	defer a.n.mu.Unlock()
-	if number != "finalized" {
-		return nil, fmt.Errorf("fake node: unexpected block tag %q", number)
+	hdr := func(h uint64) any {
+		return &types.Header{Number: new(big.Int).SetUint64(h), Difficulty: big.NewInt(0), Extra: []byte{}}
 	}
+	// the truth about finality at this query, whatever tag was asked for
 	a.n.finCalls++
+	truth := a.n.cur
+	if a.n.finCalls == 1 {
+		truth = a.n.fin1
+	}
+	a.n.lastFinAnswer = truth
+	switch number {
+	case "finalized":
+	case "latest", "pending":
+		return hdr(a.n.latest), nil
+	case "safe": // justified, not yet finalised
+		return hdr(truth + 1), nil
+	case "earliest":
+		return hdr(0), nil
+	default:
+		h, err := parseBlock(number)
+		if err != nil {
+			return nil, fmt.Errorf("fake node: unexpected block tag %q", number)
+		}
+		return hdr(h), nil
+	}
 	if a.n.finFails > 0 {
 		a.n.finFails--
 		return nil, errors.New("scripted failure")
 	}
-	h := a.n.cur
-	if a.n.finCalls == 1 {
-		h = a.n.fin1
+	if a.n.finNotFound > 0 {
+		a.n.finNotFound--
+		return nil, nil // JSON null: the node has not seen finality
 	}
-	a.n.lastFinAnswer = h
-	return &types.Header{Number: new(big.Int).SetUint64(h), Difficulty: big.NewInt(0), Extra: []byte{}}, nil
+	return hdr(truth), nil
 }
 
 type logCriteria struct {
@@ -154,6 +203,23 @@ func parseBlock(s string) (uint64, error) {
 	return strconv.ParseUint(strings.TrimPrefix(s, "0x"), 16, 64)
 }
 
+// matches implements the eth_getLogs / eth_subscribe filter of a real node for the two
+// criteria juno uses: contract address(es) and first topic(s). Absent criterion = wildcard.
+func (c logCriteria) matches(l *types.Log) bool {
+	if a := strings.TrimSpace(string(c.Address)); a != "" && a != "null" && a != "[]" {
+		if !strings.Contains(strings.ToLower(a), strings.ToLower(l.Address.Hex()[2:])) {
+			return false
+		}
+	}
+	if len(c.Topics) > 0 {
+		t := strings.TrimSpace(string(c.Topics[0]))
+		if t != "" && t != "null" && t != "[]" && !strings.Contains(strings.ToLower(t), l.Topics[0].Hex()[2:]) {
+			return false
+		}
+	}
+	return true
+}
+
 func (a *ethAPI) GetLogs(ctx context.Context, crit logCriteria) ([]*types.Log, error) {
 	from, err := parseBlock(crit.FromBlock)
 	if err != nil {
@@ -163,17 +229,18 @@ func (a *ethAPI) GetLogs(ctx context.Context, crit logCriteria) ([]*types.Log, e
 	if err != nil {
 		return nil, fmt.Errorf("fake node: toBlock %q", crit.ToBlock)
 	}
-	if !strings.Contains(strings.ToLower(string(crit.Address)), strings.ToLower(coreContract.Hex()[2:])) ||
-		len(crit.Topics) == 0 || !strings.Contains(strings.ToLower(string(crit.Topics[0])), logStateUpdate.Hex()[2:]) {
-		return []*types.Log{}, nil // a query for another contract / event matches nothing
-	}
 	a.n.mu.Lock()
 	defer a.n.mu.Unlock()
 	a.n.filterQ = append(a.n.filterQ, [2]uint64{from, to})
 	out := []*types.Log{}
-	for i, l := range a.n.hist {
+	// logs of other contracts / other events live in the same blocks; chain order by L1 block
+	all := append(append([]Log{}, a.n.hist...), a.n.decoys...)
+	sort.SliceStable(all, func(i, j int) bool { return all[i].L1 < all[j].L1 })
+	for i, l := range all {
 		if from <= l.L1 && l.L1 <= to {
-			out = append(out, toGethLog(l, uint(i)))
+			if gl := toGethLog(l, uint(i)); crit.matches(gl) {
+				out = append(out, gl)
+			}
 		}
 	}
 	return out, nil
@@ -186,7 +253,7 @@ func (a *ethAPI) Logs(ctx context.Context, crit logCriteria) (*rpc.Subscription,
 		return nil, rpc.ErrNotificationsUnsupported
 	}
 	sub := notifier.CreateSubscription()
-	ns := &nodeSub{ch: make(chan *types.Log, 4096), done: make(chan struct{})}
+	ns := &nodeSub{ch: make(chan *types.Log, 4096), done: make(chan struct{}), crit: crit}
 	a.n.mu.Lock()
 	a.n.subs = append(a.n.subs, ns)
 	a.n.subCount++
@@ -206,7 +273,8 @@ func (a *ethAPI) Logs(ctx context.Context, crit logCriteria) (*rpc.Subscription,
 }
 
 func newFakeNode(c *Case) (*fakeNode, error) {
-	n := &fakeNode{hist: c.Hist, latest: c.Latest, fin1: c.Fin1, cur: c.Fin2}
+	n := &fakeNode{hist: c.Hist, latest: c.Latest, fin1: c.Fin1, cur: c.Fin2, decoys: c.Decoys,
+		chainIDFails: c.ChainIDFails, chainIDMismatch: c.ChainIDMismatch}
 	n.srv = rpc.NewServer()
 	if err := n.srv.RegisterName("eth", &ethAPI{n}); err != nil {
 		return nil, err
@@ -230,14 +298,18 @@ func (n *fakeNode) emit(logs []Log, record bool) {
 	n.mu.Lock()
 	defer n.mu.Unlock()
 	for _, l := range logs {
-		if record {
+		if record && l.Decoy == 0 {
 			n.emitted = append(n.emitted, l)
 		}
+		gl := toGethLog(l, uint(len(n.emitted)))
 		for _, s := range n.subs {
+			if !s.crit.matches(gl) {
+				continue // a log of another contract / event is not pushed on this subscription
+			}
 			select {
 			case <-s.done:
 			default:
-				s.ch <- toGethLog(l, uint(len(n.emitted)))
+				s.ch <- gl
 			}
 		}
 	}
